@@ -1,4 +1,4 @@
-//go:build verif
+//go:build verif && go1.25
 
 // Correspondence harness of property C15 (TCP mux): the real TCPMuxDefault / tcpPacketConn /
 // MultiTCPMuxDefault driven, one operation per line, inside a testing/synctest bubble (virtual
@@ -536,7 +536,7 @@ func (s *vTcpSess) digest(res string) string {
 		g.acc, g.hand, g.watch, g.read, g.writ, g.other, l, ret)
 }
 
-func vAtoi(s string) int {
+func vtmAtoi(s string) int {
 	n, err := strconv.Atoi(s)
 	if err != nil {
 		return -1
@@ -562,7 +562,7 @@ func (s *vTcpSess) op(t []string) string {
 func (s *vTcpSess) op1(t []string) string {
 	a := func(i int) int {
 		if i < len(t) {
-			return vAtoi(t[i])
+			return vtmAtoi(t[i])
 		}
 		return -1
 	}
@@ -574,7 +574,7 @@ func (s *vTcpSess) op1(t []string) string {
 	}
 	handle := func(i int) *vTcpHandle {
 		if i < len(t) && strings.HasPrefix(t[i], "h") {
-			if k := vAtoi(t[i][1:]); k >= 0 && k < len(s.handles) {
+			if k := vtmAtoi(t[i][1:]); k >= 0 && k < len(s.handles) {
 				return s.handles[k]
 			}
 		}
@@ -850,7 +850,7 @@ func (s *vTcpSess) multi(t []string) string {
 	if len(t) != 4 {
 		return "bad-op"
 	}
-	n, bad := vAtoi(t[2]), vAtoi(t[3])
+	n, bad := vtmAtoi(t[2]), vtmAtoi(t[3])
 	if n < 0 || n > 4 || bad >= n {
 		return "bad-op"
 	}
